@@ -69,6 +69,60 @@ def mine(a):
     return not a.get('cont')
 
 
+def lock_fail_case(item):
+    """`redo L F` / `redo -jN F L` while another invocation is building L (so L is met locked) and F fails: once F's failure is
+    known the command must not go on to build L (no --keep-going); with --keep-going it must."""
+    import re
+    import time
+    from .. import common, scen
+    _, order, j, keep, seed = item
+    files = {'L.do': scen.leaf_do('sleep 0.9'), 'F.do': scen.TRACE_HDR + 'echo "S $1 $$ $PPID" >&9\nsleep 0.2\necho "E $1 $$ 4" >&9\nexit 4\n',
+             'G.do': scen.leaf_do('sleep 0.1')}
+    pj = scen.Project(files, 'c05l')
+    anoms = []
+    try:
+        argv = ['redo'] + (['-j%d' % j] if j > 1 else []) + (['-k'] if keep else []) + list(order)
+        res = pj.run_many([dict(argv=['redo', 'L'], extra={'RV_INV': '0'}), dict(argv=argv, delay=0.25, extra={'RV_INV': '1'})], timeout=60)
+        if any(r is None or r.status != 'exit' for r in res):
+            return dict(verdict='inconclusive', why='lock/fail scenario did not end', sample=dict(item=list(item)))
+        tr = pj.trace_text()
+        nL = len(re.findall(r'^S L ', tr, re.M))
+        waited = ' lock_wait ' in tr or 'locked' in (res[1].err + res[1].out) or nL >= 1
+        if res[1].rc == 0:
+            anoms.append(dict(key='exit:expected-failure:rc=0:locked-sibling', what='%s exits 0 although F failed' % argv))
+        if not keep and nL != 1:
+            anoms.append(dict(key='started-after-known-failure:locked-target', what='%s: L.do ran %d times in total: the command built L after F had failed' % (argv, nL)))
+        if keep and nL != 2:
+            anoms.append(dict(key='keep-going-skipped-target:locked-target', what='%s: L.do ran %d times in total, expected 2 (forced rebuild after the lock was free)' % (argv, nL)))
+        known = {}
+        for l in tr.split('\n'):
+            f = l.split(' ')
+            if f[0] == 'H' and len(f) >= 3:
+                if f[2] == 'fail_known':
+                    known[f[1]] = l
+                elif f[2] == 'job_start' and f[1] in known and not keep:
+                    anoms.append(dict(key='started-after-known-failure', what='process %s started %s after %s' % (f[1], ' '.join(f[3:]), known[f[1]])))
+    finally:
+        pj.close()
+    res_ = dict(verdict='violated' if anoms else 'held', nontrivial=True, shape=common.shash(list(item)),
+                sample=dict(kind='failure-with-locked-sibling', argv=argv), obs=dict(lock_fail_scenarios=1), sets=dict(rebuild_reasons=['locked-sibling']))
+    if anoms:
+        seen = set()
+        res_['violations'] = [a for a in anoms if not (a['key'] in seen or seen.add(a['key']))]
+        res_['replay'] = dict(kind='lockfail', item=list(item))
+    return res_
+
+
+class Dispatch:
+    def __init__(self, hist):
+        self.hist = hist
+
+    def __call__(self, item, **kw):
+        if isinstance(item, (tuple, list)) and item and item[0] == 'lockfail':
+            return lock_fail_case(tuple(item))
+        return self.hist(item, **kw)
+
+
 CASE = histcheck.HistCase(PROP, prof, {'exit', 'multi', 'underbuild', 'overbuild', 'stale', 'swallowed', 'started-after-failure'}, nontrivial, hook=hook, keyfilter=mine)
 
 RULE = ('programs with 1-4 nodes whose failure is switched by a declared flag source, at varying depth and list position, shared '
@@ -78,6 +132,7 @@ RULE = ('programs with 1-4 nodes whose failure is switched by a declared flag so
         '(RC records) vs failures already recorded in the trace; executed multiset vs model (failed target once per run, '
         'retried next run, dependents re-executed); contents of everything the model says was brought up to date, also after a '
         'failing --keep-going command; hook monitor: no job_start after fail_known in one process without --keep-going. '
+        'Contention layer: `redo L F` / `redo -jN F L` (with and without -k) while another invocation holds L: L must not be built after F failed, and must be with -k. '
         'Non-trivial: a failing command followed later by a successful command that ran scripts. Distinct: (graph shape, op sequence).')
 ASSUME = ['which siblings were already started when a failure becomes known is schedule-dependent: guided by the observation (must <= observed <= may)',
           'a successful tolerant consumer of a failed dependency is dirty and is re-executed on a later request in the same run']
@@ -85,9 +140,26 @@ ASSUME = ['which siblings were already started when a failure becomes known is s
 
 def main(tier):
     n, budget = (240, 70) if tier == 'quick' else (5000, 780)
-    return histcheck.run(PROP, tier, CASE, histcheck.seeds_for(PROP, tier, n), 'exploration', RULE, ASSUME, budget, floor=20)
+    extra = []
+    for rep in range(1 if tier == 'quick' else 6):
+        for order, j in ((('L', 'F'), 1), (('F', 'L'), 2), (('L', 'G', 'F'), 1), (('G', 'F', 'L'), 3)):
+            for keep in (False, True):
+                extra.append(('lockfail', order, j, keep, rep))
+    return histcheck.run(PROP, tier, Dispatch(CASE), extra + histcheck.seeds_for(PROP, tier, n), 'exploration', RULE, ASSUME, budget, floor=20)
 
 
 def replay(path):
+    import json
+    d = json.load(open(path))
+    if d['replay'].get('kind') == 'lockfail':
+        from .. import common
+        common.ensure_built()
+        r = lock_fail_case(tuple(tuple(x) if isinstance(x, list) else x for x in d['replay']['item']))
+        print(r.get('verdict'), r.get('violations'))
+        common.cleanup_scratch()
+        if r.get('verdict') == 'violated':
+            print('VIOLATION property=%s replay=%s' % (PROP, path))
+            return 1
+        return 0
     from ..replay import replay_history
     return replay_history(PROP, path)
